@@ -7,10 +7,10 @@ def run(ctx):
     exe = build.driver("asan", "c17_addr", ["c17_addr.c"])
     q = ctx.quick
     jobs = []
-    nt = 8 if q else 32
+    nt = 12 if q else 32
     for i in range(nt):
-        jobs.append(dict(cmd=[exe, "--mode", "text", "--n", str(15000 if q else 300000), "--seed", str(ctx.seed * 1000 + i)], variant="asan", tag="text seed%d" % i, san_ctx="addr-text"))
-        jobs.append(dict(cmd=[exe, "--mode", "native", "--n", str(400 if q else 6000), "--seed", str(ctx.seed * 1000 + i)], variant="asan", tag="native seed%d" % i, san_ctx="addr-native"))
+        jobs.append(dict(cmd=[exe, "--mode", "text", "--n", str(100000 if q else 300000), "--seed", str(ctx.seed * 1000 + i)], variant="asan", tag="text seed%d" % i, san_ctx="addr-text"))
+        jobs.append(dict(cmd=[exe, "--mode", "native", "--n", str(2500 if q else 6000), "--seed", str(ctx.seed * 1000 + i)], variant="asan", tag="native seed%d" % i, san_ctx="addr-native"))
     jobs.append(dict(cmd=[exe, "--mode", "ports"], variant="asan", tag="ports", san_ctx="addr-ports"))
     res = core.run_jobs(ctx, jobs, timeout=600 if q else 3000)
     tot = {}
